@@ -9,7 +9,8 @@
    - ImmediateScheduler: a function.
    Due times are on the scheduler clock: absolute t -> t; relative d -> (clock reading of the call) +
    max(0, d).  Tie to /repo: harness/props/C34.py. *)
-From RxVerif Require Import Base.Prelude Core.RealTime Core.EventLoop Core.EventLoopFacts Core.RealTimeFacts.
+From RxVerif Require Import Base.Prelude Core.RealTime Core.EventLoop Core.EventLoopFacts Core.RealTimeFacts Core.RealTimeFacts2.
+From RxVerif Require Import Core.EventLoopFacts2.
 Local Open Scope Z_scope.
 
 (* ---- TimeoutScheduler ---------------------------------------------------------------------- *)
@@ -26,6 +27,44 @@ Theorem C34_timeout_not_after_cancel : forall t0 progs sched tid t a due tid' t'
 Proof. exact timeout_not_after_cancel. Qed.
 Print Assumptions C34_timeout_not_after_cancel.
 
+(* the due time (ghost) is tied to the request.  Step lemma, any state: schedule(a) / schedule_relative(d, a)
+   is one step that returns due = clock + max(0, d) (d = 0 for schedule) and starts exactly one Timer thread
+   for [a] with that due time and interval max(0, d) *)
+Theorem C34_timeout_due_recorded : forall ntid s o r a d,
+  (o = TNow a /\ d = 0) \/ o = TRel d a ->
+  caller_step ntid s None (o :: r) =
+    Some (s, Caller None r, [TSpawn ntid; TRet a (tclock s + Z.max 0 d)],
+          Some (Timer a (tclock s + Z.max 0 d) (PNew (Z.max 0 d)))).
+Proof. exact timeout_due_recorded. Qed.
+Print Assumptions C34_timeout_due_recorded.
+
+(* schedule_absolute(t, a): nothing observable up to the clock read; the second step (at state s2) returns
+   due = t and starts the Timer with interval max(0, t - now): it cannot expire before t *)
+Theorem C34_timeout_due_recorded_abs : forall ntid s t a r,
+  caller_step ntid s None (TAbs t a :: r) = Some (s, Caller (Some (t, a)) r, [], None) /\
+  forall s2, caller_step ntid s2 (Some (t, a)) r =
+    Some (s2, Caller None r, [TSpawn ntid; TRet a t], Some (Timer a t (PNew (Z.max 0 (t - tclock s2))))) /\
+    t <= tclock s2 + Z.max 0 (t - tclock s2).
+Proof. exact timeout_due_recorded_abs. Qed.
+Print Assumptions C34_timeout_due_recorded_abs.
+
+(* run level: the due time an action is started with IS a due time that a schedule call for that action
+   returned, and that call returned no later than the start *)
+Theorem C34_timeout_start_due_was_returned : forall t0 progs sched tid t a due,
+  In (tid, t, TStart a due) (t_log (trun (tinit t0 progs) sched)) ->
+  exists tid' t', In (tid', t', TRet a due) (t_log (trun (tinit t0 progs) sched)) /\ t' <= t.
+Proof. exact timeout_start_due_was_returned. Qed.
+Print Assumptions C34_timeout_start_due_was_returned.
+
+(* "... and that call returned at or before the due time" is NOT a theorem: schedule_absolute with a time
+   in the past returns due = t with the clock already past t (the action then runs at once: late, never early) *)
+Theorem C34_timeout_ret_before_due_refuted :
+  t_log timeout_abs_past_witness =
+    [(0%nat, 100, TSpawn 1); (0%nat, 100, TRet 7 50); (1%nat, 100, TStart 7 50)] /\
+  forall tid' t', In (tid', t', TRet 7%nat 50) (t_log timeout_abs_past_witness) -> ~ t' <= 50.
+Proof. exact timeout_ret_before_due_refuted. Qed.
+Print Assumptions C34_timeout_ret_before_due_refuted.
+
 (* ---- EventLoopScheduler (and NewThread / ThreadPool through it) -------------------------------- *)
 Theorem C34_eventloop_not_early : forall eie body t0 progs sched tid t i,
   In (tid, t, EStart i) (c_log (run eie body (init t0 progs) sched)) -> it_due i <= t.
@@ -37,6 +76,19 @@ Theorem C34_eventloop_not_after_cancel : forall eie body t0 progs sched tid t i 
   In (tid, t, EStart i) (c_log c) -> In (tid', t', ECancelRet (it_lbl i)) (c_log c) -> it_due i <= t'.
 Proof. exact el_not_after_cancel_before_due. Qed.
 Print Assumptions C34_eventloop_not_after_cancel.
+
+(* the due time of an event-loop item is tied to the call: the call that made an accepted item is in the log
+   (same uid, same action) and its first step -- the one that read the clock -- happened at or before the
+   item's due time, unless the due time is the argument of a schedule_absolute for that action somewhere
+   in the programs / action bodies (C31_accepted_due_linked, restated for this property) *)
+Theorem C34_eventloop_due_linked : forall eie body progs t0 sched i,
+  let c := run eie body (init t0 progs) sched in
+  In (EAcc i) (L c) ->
+  exists tid tc, In (tid, tc, ECall (it_uid i) (it_lbl i)) (c_log c) /\
+    (tc <= it_due i \/ (exists p, In p progs /\ In (SchedAbs (it_due i) (it_lbl i)) p) \/
+                       exists a, In (SchedAbs (it_due i) (it_lbl i)) (body a)).
+Proof. exact el_accepted_due_linked. Qed.
+Print Assumptions C34_eventloop_due_linked.
 
 (* NewThreadScheduler.schedule_absolute(t) turns t into a delay at clock reading now1 and the inner
    scheduler turns the delay back into an absolute time at reading now2 >= now1: never before t *)
